@@ -11,7 +11,7 @@ CLAIM = """Decides the loop-carried-dependence clause, which is the property its
 population engine's generation loop the parents handed to the engine step (SEA/DE/SHADE `run`, CMA-ES `tell`) are, on every
 path around the loop, redefined from the step's own result of the previous iteration (or read state that the loop body
 rewrites from it); their loop-entry value is the deme's current population; and the generations recorded for the metaepoch
-are exactly the step results. A loop-invariant parent argument (the pinned defect) is reported with its read and write sets. (R11.6) only the deme itself records generations; a population kept in an attribute between metaepochs is the last recorded generation at every exit; on every path the operator applied last before evaluate() resets the fitness of changed rows."""
+are exactly the step results. A loop-invariant parent argument (the pinned defect) is reported with its read and write sets. (R11.6) only the deme itself records generations; a population kept in an attribute between metaepochs is the last recorded generation at every exit; on every path the operator applied last before evaluate() resets the fitness of changed rows. (R11.7) selection sources and the exactness of NumpyCache keys. A foreign append of the current population itself is not a C11 violation (every individual of it belonged to the preceding generation); a single point handed to the objective inside a comprehension is not a parent argument."""
 NOTE = """That the engine step itself derives every offspring from the parents it is given is C02/C12's concern (operator
 pipelines); cma's ask/tell chain is an external summary."""
 TECHNIQUE = "def-use / loop-carried dependence analysis on per-function CFGs (ast), engine steps discovered through effect summaries"
@@ -153,6 +153,12 @@ def analyse_engine(ctx: Ctx, ci, f, cfg, in_loop):
             return False
         if _names(b.ast.value) & derived:
             return True
+        # `genomes = list(engine.ask()); pop = [Individual(g) for g in genomes]; evaluate_population(pop)`: nm holds this
+        # generation's sampled genomes, the very objects the evaluated population is built from
+        if any(isinstance(c_, ast.Call) and isinstance(c_.func, ast.Attribute) and c_.func.attr == "ask" for c_ in ast.walk(b.ast.value)):
+            for x in body:
+                if isinstance(x.ast, (ast.Assign, ast.AnnAssign)) and x.ast.value is not None and (_targets(x.ast) & inplace) and nm in _names(x.ast.value) and cfg.find_path(b, x, avoid=lambda y: y is not b and nm in _targets(y.ast)) is not None:
+                    return True
         if nm in inplace:
             others = [x for x in body if x is not b and nm in _targets(x.ast)]
             return any(cfg.find_path(b, x, avoid=lambda y: y in others) is not None for x in step_nodes if not _targets(x.ast) and nm in {a.id for c in ast.walk(x.ast) if isinstance(c, ast.Call) for a in c.args if isinstance(a, ast.Name)})
@@ -278,8 +284,15 @@ def analyse_engine(ctx: Ctx, ci, f, cfg, in_loop):
                 # appends on exit-only paths do not feed the next iteration
                 back_edge_appends = [b for b in body if b.kind == "stmt" and is_history_append(b.ast, selfn) and cfg.can_reach(b, head)]
                 carried = bool(set(reads) & written) and bool(back_edge_appends or (set(reads) & written) - {"_history", "history", "current_population"})
+                # a local container the expression reads is changed IN PLACE inside the loop (`buf.append(g)`, `buf[0] = g`): what
+                # `buf[0]` then denotes is a question about the container's contents
+                MUTS = ("append", "appendleft", "extend", "extendleft", "insert", "pop", "popleft", "clear", "rotate", "remove", "update", "add", "put", "push")
+                loc_reads = _free_locals(p, selfn)
+                inplace_loc = sorted({x.func.value.id for b in body for x in ast.walk(b.ast) if isinstance(x, ast.Call) and isinstance(x.func, ast.Attribute) and x.func.attr in MUTS and isinstance(x.func.value, ast.Name) and x.func.value.id in loc_reads} | {x.value.id for b in body for x in ast.walk(b.ast) if isinstance(x, ast.Subscript) and isinstance(x.ctx, ast.Store) and isinstance(x.value, ast.Name) and x.value.id in loc_reads})
                 if carried:
                     obs.append(ctx.ob("R11.1", f, call, detail=f"{ci.name}: parent expression reads state rewritten inside the loop ({sorted(set(reads) & written)})", construct=label))
+                elif inplace_loc:
+                    obs.append(ctx.ob("R11.1", f, call, status=INCONCLUSIVE, detail=f"{ci.name}: the parents `{norm(p)}` are read out of the local container `{inplace_loc[0]}`, which the loop changes in place: which generation it holds is not followed", construct=label))
                 else:
                     obs.append(ctx.ob("R11.1", f, call, status=VIOLATION, detail=f"{ci.name}: the parents `{norm(p)}` handed to {norm(call.func)} are loop-invariant — the loop body never rewrites what the expression reads on a path back to the loop head, so every generation of the metaepoch is bred from the metaepoch's starting population", witness=[f"read set: {sorted(set(reads))}", f"written on back-edge paths: {sorted(written)}", f"step results: {sorted(results)}"], construct=label))
     # R11.3 what is recorded
